@@ -173,6 +173,51 @@ def h_expr(params, vals, ctx):
     return o.symbol("X") == expected
 
 
+def h_repeat_dot(params, vals, ctx):
+    """One statement evaluated at several addresses: an expression over '.' inside '.repeat' gets the value of '.' of each copy."""
+    ee = _ee()
+    op, n = params["op"], params["n"]
+    a, c, b = vals["A"], vals["C"], vals["B"]
+    small = op in ("<<", "_", "*")
+    require(0 <= b < (4000 if small else 60000) and b % 2 == 0)
+    require(-1000 <= a <= 1000)
+    if op in SHIFTS:
+        require(0 <= c <= 3)
+    else:
+        require(1 <= c <= (8 if small else 1000))
+    tokens = ["(", "D", "+", "A", ")", op, "C"]
+    tree = ee.parse(tokens)
+    expr = ee.render(tokens, {"D": ".", "A": "{A}", "C": "{C}"})
+    text = ".link {B}\n.repeat %d {\n.word %s\n}\n.word 0\n.word %s\n" % (n, expr, expr)
+    o = assemble([("a.mac", text)], vals, route=ctx.route)
+    ctx.observe_outcome(o)
+    ctx.reach(o.status == "ok")
+    if o.status != "ok" or o.errors or len(o.code) != 2 * n + 4:
+        return False
+    for k in list(range(n)) + [n + 1]:
+        want = ee.evaluate(tree, {"D": b + 2 * k, "A": a, "C": c})
+        if not (o.code[2 * k] + 256 * o.code[2 * k + 1] == want % 65536):
+            return False
+    return True
+
+
+def h_shadow(params, vals, ctx):
+    """An operand symbol defined further down in the same file, while a file linked earlier exports the same name: the expression
+    is evaluated over the file's own definition."""
+    a, b, c = vals["A"], vals["B"], vals["C"]
+    op = params["op"]
+    if op in ("/", "%"):
+        require(b != 0)
+    ee = _ee()
+    tree = ee.parse(["A", op, "B"])
+    o = assemble([("o.mac", "sb == {C}\nsa == {C} + 1\n"), ("a.mac", "X = sa %s sb\nsa = {A}\nsb = {B}\n" % op)], vals, route=ctx.route)
+    ctx.observe_outcome(o)
+    ctx.reach(o.status == "ok")
+    if o.status != "ok" or o.errors:
+        return False
+    return o.symbol("X", 2) == ee.evaluate(tree, {"A": a, "B": b})
+
+
 def h_char(params, vals, ctx):
     """'c and \"cc literals pack little-endian in the output charset."""
     n = params["n"]
@@ -320,6 +365,12 @@ def obligations(tier, seed):
         ob = _ob(f"deep/{k}", toks, timeout=300)
         ob.params["reach_any"] = True
         obs.append(ob)
+    for op in ("+", "*", "/", "%"):
+        obs.append(Ob(oid=f"shadowed-export/{op}", harness="pdpverif.props.c05:h_shadow", params={"op": op}, vars={"A": "int", "B": "int", "C": "int"}, timeout=300, per_path=60))
+    # the same statement at several addresses
+    for op in ("/", "%", "<<", ">>", "_", "+", "*", "-"):
+        obs.append(Ob(oid=f"repeat-dot/{op}", harness="pdpverif.props.c05:h_repeat_dot", params={"op": op, "n": 3}, vars={"A": "int", "B": "int", "C": "int"},
+                      timeout=300, per_path=60, note=".repeat 3 { .word (. + A) op C } / .word 0 / .word (. + A) op C"))
     # 'c / "cc literals: symbolic characters
     cpmax = 0x110000 if tier == "thorough" else 0x900
     obs.append(Ob(oid="char/1/utf-8", harness=HC, params={"n": 1, "charset": "utf-8", "max_cp": cpmax, "windows": tier == "quick"}, vars={"S_1": "str"}, timeout=600))
